@@ -256,6 +256,18 @@ class Ctx:
                 self.notes.append(n)
 
 
+class Unavailable(Exception):
+    """an internal (underscore) name of the implementation that a function-level relation looks at is not there any more:
+    that relation is skipped (noted in the evidence); the end-to-end relations of the property remain"""
+
+
+def private(obj, name):
+    try:
+        return getattr(obj, name)
+    except AttributeError:
+        raise Unavailable("%s.%s" % (type(obj).__name__, name))
+
+
 def pmap(ctx: "Ctx", worker: Callable, jobs: List[Any], procs: int = 0):
     """Run worker(job_args) -> Ctx.dump() in a fork pool and merge into ctx.
     `worker` must be a module-level function taking (pid, tier, seed, job)."""
